@@ -385,7 +385,27 @@ func runC04(c *Ctx) {
 				}
 				if u.bdd.Implies(r.Cond, u.bdd.Not(wild)) {
 					nPlain++
-					if !u.bdd.Implies(r.Cond, u.bdd.Or(eq, dotSuf)) {
+					// the same boundary test without building "."+d: HasSuffix(domain, d) and the byte in
+					// front of that suffix is '.'
+					accepted := u.bdd.Or(eq, dotSuf)
+					plainSuf := u.ToBool(u.Call("strings.HasSuffix", types.Typ[types.Bool], dom, d))
+					for _, at := range u.AtomsOf(r.Cond) {
+						if at.Op != "eq" {
+							continue
+						}
+						for i := 0; i < 2; i++ {
+							x, k := at.Args[i], at.Args[1-i]
+							if x.Op != "index" || x.Args[0] != dom || !isIntConst(k, '.') {
+								continue
+							}
+							L := NewLin(u)
+							want := u.Bin(token.SUB, u.Bin(token.SUB, u.Len(dom), u.Len(d), types.Typ[types.Int]), u.Int(1), types.Typ[types.Int])
+							if L.entails(L.linearize(x.Args[1]), L.linearize(want), 0) && L.entails(L.linearize(want), L.linearize(x.Args[1]), 0) {
+								accepted = u.bdd.Or(accepted, u.bdd.And(plainSuf, u.Atom(at)))
+							}
+						}
+					}
+					if !u.bdd.Implies(r.Cond, accepted) {
 						badPlain = "a plain list value d accepts a domain that is neither d nor ends in \".\"+d (e.g. $domain=example.org would apply on notexample.org): " + clip(u.ShowBool(r.Cond), 200)
 					}
 				} else if u.bdd.Implies(r.Cond, wild) {
